@@ -238,6 +238,9 @@ FUNCS = [
 	     calls={'SetAccumulator': ('(Py.Acc.new false {0})', ('acc',), []), 'ArrayAccumulator': ('(Py.Acc.new true {0})', ('acc',), [('(decide ({0} < 0))', 'ValueError')])}),
 	dict(name='calc_signature', file='sigs/calc.py', qual='calc_signature', module='PyCalcSig', env=[],
 	     params=[('kmerspec', KSPEC), ('seqs', LIST(BYTES)), ('accumulator', OPT(('acc',)))], ret=LIST(INT)),
+	# --- util/io.py: compression detection (the stream is the environment: the bytes of the file from its beginning)
+	dict(name='guess_compression', file='util/io.py', qual='guess_compression', module='PyIo', env=[('DATA', 'List UInt8')], strings='plain',
+	     params=[('fobj', ('obj',))], ret=STR, opaque={'fobj.read(2)': ('(DATA.take 2)', BYTES)}),
 	# --- cluster.py: linkage matrix -> tree (heights as exact integers; link rows = (left, right, height, size))
 	dict(name='linkage_to_bio_tree', file='cluster.py', qual='linkage_to_bio_tree', module='PyCluster', env=[],
 	     params=[('link', LIST(TUP(INT, INT, INT, INT))), ('labels', LIST(NUM))], ret=REC('Clade'), locals={'clades': LIST(REC('Clade'))}),
@@ -694,7 +697,7 @@ class Fn:
 			return E(f'(match {b.lean} with | none => true | some b_ => decide ({a.lean} < b_))', BOOL, a.raises + b.raises)
 		if a.ty == KSPEC and b.ty == KSPEC and isinstance(op, (ast.Eq, ast.NotEq)):
 			return E(f'(decide ({a.lean} = {b.lean}))' if isinstance(op, ast.Eq) else f'(decide ({a.lean} ≠ {b.lean}))', BOOL, a.raises + b.raises)
-		if a.ty == STR and b.ty == STR and isinstance(op, (ast.Eq, ast.NotEq)):
+		if ((a.ty == STR and b.ty == STR) or (a.ty == BYTES and b.ty == BYTES)) and isinstance(op, (ast.Eq, ast.NotEq)):
 			return E(f'({a.lean} == {b.lean})' if isinstance(op, ast.Eq) else f'(!({a.lean} == {b.lean}))', BOOL, a.raises + b.raises)
 		if a.ty != b.ty or a.ty not in (INT, NUM, TAXON, GENOME, BOOL, BYTE):
 			raise Untranslatable(f'comparison between {a.ty} and {b.ty}')
